@@ -227,6 +227,10 @@ def run(A, R: Report, thorough: bool):
             f'`{pretty(tg)[:120]}`: a stored entry whose value is falsy (0, [], "", False, None) is reported as missing, so only_cache look-ups and cached calls of such results miss',
             witness=[pretty(tg)[:200]], where=where(fget))
 
+    from .c14 import check_load_handlers
+    R.rule('R16.8', 'with a file cache, an entry that cannot be loaded is recomputed and stored again (the same binding keeps returning one value)', floor=2)
+    check_load_handlers(A, R, 'R16.8')
+
 
 def _guard_tests(cfg, nid):
     """Test expressions on the control-dependence chain of a node (either polarity), including disjunctive guards."""
